@@ -45,9 +45,13 @@ def _apply(root: str, e: Edit) -> Optional[Dict[str, str]]:
     if not os.path.exists(p):
         return None
     src = open(p, encoding="utf-8").read()
-    if src.count(e.old) != 1:
-        return None
-    return {e.file: src.replace(e.old, e.new)}
+    olds = e.old if isinstance(e.old, list) else [e.old]
+    news = e.new if isinstance(e.new, list) else [e.new]
+    for o, n in zip(olds, news):
+        if src.count(o) != 1:
+            return None
+        src = src.replace(o, n)
+    return {e.file: src}
 
 
 def _run_one(args: Tuple[str, str, int]) -> Dict[str, Any]:
